@@ -433,6 +433,140 @@ fn run_wide<T: Fl>(c: &WCase, lx: &mut Local) {
     }
 }
 
+#[derive(Debug, Clone)]
+struct SCase {
+    n: usize,
+    fill: u8,
+    ty: u8,
+}
+
+fn sweep_data<T: Fl>(n: usize, fill: u8) -> (Vec<T>, Vec<T>) {
+    let xs: Vec<T> = (0..n)
+        .map(|i| {
+            T::of(match fill {
+                0 => ((i * 7919) % 1009) as f64 * 0.37 - 100.0,
+                1 => 1e6 + (i % 17) as f64 * 0.1,
+                2 => (if i % 2 == 0 { 1.0 } else { -1.0 }) * (1.0 + (i % 13) as f64 * 1e3),
+                _ => 0.5 + (i % 29) as f64 * 0.25, // positive (harmonic / geometric)
+            })
+        })
+        .collect();
+    let ws: Vec<T> = (0..n).map(|i| T::of(0.25 + ((i * 3) % 5) as f64 + if i % 11 == 0 { 0.125 } else { 0.0 })).collect();
+    (xs, ws)
+}
+
+/// every routine on one long 1-D array (size thresholds: blocks, unrolling, pairwise summation)
+fn run_sweep<T: Fl>(c: &SCase, lx: &mut Local) {
+    let n = c.n;
+    let (xs, ws) = sweep_data::<T>(n, c.fill);
+    let (xr, wr) = (rats(&xs), rats(&ws));
+    let u = T::U;
+    lx.single(|lx| {
+        let step = [1isize, -1, 2][(n + c.fill as usize) % 3];
+        let hx = Host1::new(&xs, step, 1, T::of(777.0));
+        let hw = Host1::new(&ws, -step, 1, T::of(555.0));
+        let (vx, vw) = (hx.view(), hw.view());
+        let mut obs = Vec::new();
+        if n == 0 {
+            lx.check(matches!(guarded(|| SummaryStatisticsExt::mean(&vx)), Ok(Err(_))), "C06/missing-error", || "mean of empty".to_string());
+            return 0;
+        }
+        let want = fl::mean(&xr);
+        let b = c4(n) * u * fl::abs_sum(&xr).to_f64_up_abs() / n as f64;
+        match guarded(|| SummaryStatisticsExt::mean(&vx)) {
+            Ok(Ok(g)) => {
+                let e = err_of(g.to_f64_(), &want);
+                lx.ratio("mean_long", e / b.max(f64::MIN_POSITIVE));
+                lx.check(e <= b, "C06/mean-long", || format!("[{}] mean of {} elements (fill {}, stride {}) = {:?}, exact {:e}, error {:e} > bound {:e}", T::NAME, n, c.fill, step, g, want.to_f64(), e, b));
+                obs.push(g.bits_());
+            }
+            other => lx.fail("C06/mean-failed", || format!("[{}] mean of {} elements: {:?}", T::NAME, n, other.map(|r| r.map(|x| x.to_f64_())))),
+        }
+        let (s, a) = fl::weighted_sum(&xr, &wr);
+        let sb = c4(n) * u * a.to_f64_up_abs();
+        match guarded(|| vx.weighted_sum(&vw)) {
+            Ok(Ok(g)) => {
+                let e = err_of(g.to_f64_(), &s);
+                lx.check(e <= sb, "C06/weighted-sum-long", || format!("[{}] weighted_sum of {} elements (fill {}) = {:?}, exact {:e}, error {:e} > bound {:e}", T::NAME, n, c.fill, g, s.to_f64(), e, sb));
+                obs.push(g.bits_());
+            }
+            other => lx.fail("C06/weighted-sum-failed", || format!("[{}] weighted_sum of {} elements: {:?}", T::NAME, n, other.map(|r| r.map(|x| x.to_f64_())))),
+        }
+        let wt = sum(wr.iter());
+        let mw = &s / &wt;
+        let mb = 2.0 * c4(n) * u * (a.to_f64_up_abs() / wt.to_f64());
+        match guarded(|| vx.weighted_mean(&vw)) {
+            Ok(Ok(g)) => {
+                let e = err_of(g.to_f64_(), &mw);
+                lx.check(e <= mb, "C06/weighted-mean-long", || format!("[{}] weighted_mean of {} elements (fill {}) = {:?}, exact {:e}, error {:e} > bound {:e}", T::NAME, n, c.fill, g, mw.to_f64(), e, mb));
+            }
+            other => lx.fail("C06/weighted-mean-failed", || format!("[{}] weighted_mean of {} elements: {:?}", T::NAME, n, other.map(|r| r.map(|x| x.to_f64_())))),
+        }
+        if c.fill == 3 {
+            let recips: Vec<Rat> = xr.iter().map(|x| x.recip()).collect();
+            let hw_ = fl::mean(&recips).recip();
+            let hb = 4.0 * ((n as f64 + 4.0) * u + 2.0 * u) * hw_.to_f64_up_abs();
+            match guarded(|| vx.harmonic_mean()) {
+                Ok(Ok(g)) => {
+                    let e = err_of(g.to_f64_(), &hw_);
+                    lx.check(e <= hb, "C06/harmonic-mean-long", || format!("[{}] harmonic_mean of {} elements = {:?}, exact {:e}, error {:e} > bound {:e}", T::NAME, n, g, hw_.to_f64(), e, hb));
+                }
+                other => lx.fail("C06/harmonic-mean-failed", || format!("harmonic_mean of {} elements: {:?}", n, other.map(|r| r.map(|x| x.to_f64_())))),
+            }
+            let lns: Vec<f64> = xs.iter().map(|x| x.to_f64_().ln()).collect();
+            let mean_ln = (&sum(lns.iter().map(|&l| Rat::from_f64(l)).collect::<Vec<_>>().iter()) / &Rat::from_u(n)).to_f64();
+            let gw = mean_ln.exp();
+            let tol = 4.0 * (n as f64 + 8.0) * u * (1.0 + lns.iter().map(|l| l.abs()).sum::<f64>() / n as f64) * gw;
+            match guarded(|| vx.geometric_mean()) {
+                Ok(Ok(g)) => {
+                    lx.check((g.to_f64_() - gw).abs() <= tol, "C06/geometric-mean-long", || format!("[{}] geometric_mean of {} elements = {:?}, reference {:e}, tolerance {:e}", T::NAME, n, g, gw, tol));
+                }
+                other => lx.fail("C06/geometric-mean-failed", || format!("geometric_mean of {} elements: {:?}", n, other.map(|r| r.map(|x| x.to_f64_())))),
+            }
+        }
+        hash_of(&obs)
+    });
+    // long lanes in 2-D: (2, n) along axis 1 and (n, 2) along axis 0
+    if n >= 2 && n <= 300 {
+        for (shape, axis) in [(vec![2usize, n], 1usize), (vec![n, 2], 0)] {
+            lx.single(|lx| {
+                let tot = 2 * n;
+                let data: Vec<T> = (0..tot).map(|i| T::of(((i * 31 + c.fill as usize) % 23) as f64 * 0.5 - 3.0)).collect();
+                let lay = all_layouts(2, &[1, -1])[(n + c.fill as usize) % 8].clone();
+                let hd = Host::new(&shape, &data, &lay, T::of(777.0));
+                let hw = Host1::new(&ws, if n % 2 == 0 { 1 } else { -1 }, 1, T::of(555.0));
+                let lanes = lanes_flat(&shape, axis);
+                match (guarded(|| hd.view().weighted_sum_axis(Axis(axis), &hw.view())), guarded(|| hd.view().weighted_mean_axis(Axis(axis), &hw.view()))) {
+                    (Ok(Ok(rs)), Ok(Ok(rm))) => {
+                        let (fs, fm): (Vec<T>, Vec<T>) = (rs.iter().cloned().collect(), rm.iter().cloned().collect());
+                        for (j, lane) in lanes.iter().enumerate() {
+                            if j >= fs.len() || j >= fm.len() {
+                                lx.fail("C06/axis-shape", || format!("axis result too short for shape {:?}", shape));
+                                break;
+                            }
+                            let lr = rats(&lane.iter().map(|&i| data[i]).collect::<Vec<T>>());
+                            let (s, a) = fl::weighted_sum(&lr, &wr);
+                            let sb = c4(n) * u * a.to_f64_up_abs();
+                            let e = err_of(fs[j].to_f64_(), &s);
+                            lx.check(e <= sb, "C06/weighted-sum-axis-long", || format!("[{}] weighted_sum_axis over a lane of {} elements (shape {:?} axis {}, lane {}) = {:?}, exact {:e}, error {:e} > bound {:e}", T::NAME, n, shape, axis, j, fs[j], s.to_f64(), e, sb));
+                            let wt = sum(wr.iter());
+                            let want = &s / &wt;
+                            let mb = 2.0 * c4(n) * u * (a.to_f64_up_abs() / wt.to_f64());
+                            let e = err_of(fm[j].to_f64_(), &want);
+                            lx.check(e <= mb, "C06/weighted-mean-axis-long", || format!("[{}] weighted_mean_axis over a lane of {} elements (shape {:?} axis {}, lane {}) = {:?}, exact {:e}", T::NAME, n, shape, axis, j, fm[j], want.to_f64()));
+                        }
+                        fs.len() as u64
+                    }
+                    (a, b) => {
+                        lx.fail("C06/axis-failed", || format!("axis forms failed on shape {:?}: {:?} / {:?}", shape, a.map(|r| r.map(|_| ())), b.map(|r| r.map(|_| ()))));
+                        0
+                    }
+                }
+            });
+        }
+    }
+}
+
 fn main() {
     let mut rep = Report::new("C06");
     rep.rule = "case = (data array over the alphabet, offset, scale, element type) with weight vectors and stride pairs inside (1-D); (shape, axis, data layout, weights stride, fill) in n-D; non-trivial = length >= 2".into();
@@ -498,6 +632,21 @@ fn main() {
                 0 => run_i32(c, lx),
                 1 => run_i64(c, lx),
                 _ => run_u8(c, lx),
+            }
+        },
+    );
+    let smax = rep.cfg.pick(1100, 4100);
+    let scases = nsmc::patterns::sizes(72, smax).into_iter().flat_map(|n| (0..4u8).flat_map(move |fill| (0..2u8).map(move |ty| SCase { n, fill, ty })));
+    rep.run_sub(
+        "size-sweep",
+        &format!("every length 0..=72 and the neighbourhoods of block / unrolling thresholds (2^k-1, 2^k, 2^k+1, 3*2^(k-1) +-1, multiples of 100) up to {} x 4 fills (scattered, 1e6 offset, alternating large signs, positive) x f64/f32: mean, weighted_sum, weighted_mean (harmonic / geometric mean on the positive fill) on contiguous / reversed / stepped views; weighted_sum_axis / weighted_mean_axis over lanes of that length in (2,n) and (n,2) arrays for n <= 300", smax),
+        scases,
+        |c, lx| {
+            lx.nontrivial(c.n >= 2);
+            if c.ty == 0 {
+                run_sweep::<f64>(c, lx)
+            } else {
+                run_sweep::<f32>(c, lx)
             }
         },
     );
